@@ -205,7 +205,7 @@ func (w *W) c12Object(pj *simdjson.ParsedJson, l Loc, mo *ref.Value, cs *ev.Case
 			return
 		}
 		w.Eval(1)
-		e := o.FindKey(string(k), nil)
+		e := o.FindKey(string(k), c12Elem(i))
 		if e == nil {
 			bad("FindKey", "present-key-nil", fmt.Sprintf("FindKey(%q) = nil, the object has that key at member %d", k, i))
 			continue
@@ -239,7 +239,7 @@ func (w *W) c12Object(pj *simdjson.ParsedJson, l Loc, mo *ref.Value, cs *ev.Case
 			return
 		}
 		w.Eval(1)
-		if e := o.FindKey(k, nil); e != nil {
+		if e := o.FindKey(k, c12Elem(len(k))); e != nil {
 			bad("FindKey", "absent-key-found", fmt.Sprintf("FindKey(%q) returned %q although no member has that key", k, e.Name))
 		}
 		if _, err := o.FindPath(nil, k); !errors.Is(err, simdjson.ErrPathNotFound) {
@@ -393,6 +393,17 @@ func (w *W) c12Object(pj *simdjson.ParsedJson, l Loc, mo *ref.Value, cs *ev.Case
 	}
 }
 
+// c12Elem returns nil or a recycled Element (used before for other keys, objects and
+// documents): a destination handed back in must be filled completely.
+var c12ElemPool [4]simdjson.Element
+
+func c12Elem(i int) *simdjson.Element {
+	if i%2 == 0 {
+		return nil
+	}
+	return &c12ElemPool[(i/2)%len(c12ElemPool)]
+}
+
 func cbKeys[T any](l []T, f func(T) string) []string {
 	var out []string
 	for _, x := range l {
@@ -419,7 +430,7 @@ func (w *W) c12Path(getObj func() (*simdjson.Object, error), mo *ref.Value, path
 		return
 	}
 	want, res := modelFind(mo, path)
-	e, ferr := o.FindPath(nil, path...)
+	e, ferr := o.FindPath(c12Elem(len(path)), path...)
 	w.Eval(1)
 	ptxt := strconv.Quote(strings.Join(path, "/"))
 	switch res {
@@ -770,6 +781,15 @@ func (w *W) c12Judge(st *c12State, g string, doc []byte) {
 				if err == nil {
 					w.c12Scalar(&it, v, cs)
 				}
+				// and through an iterator whose tape ends right after the value
+				if len(l.Path) > 0 {
+					if sit, err := locateScoped(pj, l, nums%2 == 0, roots); err == nil {
+						if d := convCheck(&sit, v); d != "" {
+							w.Violation("C12/scoped-iterator/"+firstWords(d, 1)+"/"+numText(v), "on a single-value iterator (AdvanceIter/NextElementBytes/FindKey): "+d, cs)
+						}
+						w.Eval(3)
+					}
+				}
 			}
 		}
 		// FindElement from a fresh iterator and from the root iterator
@@ -855,7 +875,7 @@ func runC12(w *W) {
 	}
 	// homogeneous and mixed arrays
 	r := w.rng("c12arr")
-	nArr := 3000
+	nArr := 15000
 	if th {
 		nArr = 400000
 	}
@@ -890,7 +910,7 @@ func runC12(w *W) {
 		judge("array", []byte("["+strings.Join(parts, ",")+"]"))
 	}
 	// structured documents with objects: unique keys (filters) and duplicate keys (FindKey)
-	nDoc := 2500
+	nDoc := 10000
 	if th {
 		nDoc = 250000
 	}
